@@ -50,6 +50,23 @@ def sym_inputs(W, mk, S, m, n, weight_kind):
     return dict(A=A, b=b, q=q, var=var, nd=nd, ws=ws, S=S, m=m, n=n)
 
 
+def fd_clauses(W, loss, var, out, h=1e-5, tol=1e-4):
+    """native world: the derivative clauses by central differences of the real value / gradient (so that a refuted derivative obligation
+    has a failing input to replay); relative tolerance 1e-4"""
+    from qverif.symtwin.verify import Clause
+    import numpy as np
+    var = np.asarray(var, dtype=float)
+    n = len(var)
+    g, H = [], []
+    for i in range(n):
+        e = np.zeros(n)
+        e[i] = h
+        g.append((loss.value(var + e) - loss.value(var - e)) / (2 * h))
+        H.append((np.asarray(loss.gradient(var + e)) - np.asarray(loss.gradient(var - e))) / (2 * h))
+    return [Clause("gradient==d(value)", "eq", np.asarray(out["gradient"]), np.array(g), "gradient_i == d value / d var_i (native: central differences)", tol),
+            Clause("hessian==d(gradient)", "eq", np.asarray(out["hessian"]), np.array(H).T, "hessian_ij == d gradient_i / d var_j (native: central differences)", tol)]
+
+
 def grad_of(W, value, var, names):
     """symbolic gradient of a scalar w.r.t. the variable symbols; native world: None (derivative clauses are symbolic-only)"""
     if not W.symbolic:
@@ -174,6 +191,8 @@ class SquaredError(E2Contract):
             cl.append(eq("gradient==d(value)", out["gradient"], g, "gradient_i == d value / d var_i (symbolic differentiation of the reported value)"))
             H = [grad_of(W, out["gradient"][i], var, names) for i in range(inp["n"])]
             cl.append(eq("hessian==d(gradient)", out["hessian"], H, "hessian_ij == d gradient_i / d var_j"))
+        elif not W.symbolic and not mode.startswith("inverse"):
+            cl += fd_clauses(W, self._mk(W, cfg, inp, False), var, out)
         return cl
 
     def canary(self, W, cfg, inp, out):
@@ -195,28 +214,40 @@ class RelativeEntropy(E2Contract):
 
     def configs(self, tier):
         out = [("identity", 2, 2), ("identity", 2, 3), ("custom", 2, 2), ("custom", 2, 3)]
+        # "q0": empirical distributions with entries that are exactly zero (outcomes never observed): 0 log 0 = 0 by the usual convention
+        out += [("identity", 2, 3, "q0"), ("custom", 2, 2, "q0")]
         if tier == "thorough":
             out += [("identity", 2, 4), ("custom", 2, 4)]      # (3 schedules x 3+ outcomes, 5 outcomes: single-fraction normal form out of budget)
+            out += [("identity", 2, 2, "q0"), ("custom", 2, 3, "q0")]
         return out
 
+    @staticmethod
+    def _zeros(cfg):
+        """positions (schedule, outcome) of the exactly-zero empirical entries"""
+        return {(0, 0), (1, cfg[2] - 1)} if len(cfg) > 3 else set()
+
     def inputs(self, W, cfg, mk):
-        mode, S, m = cfg
+        mode, S, m = cfg[:3]
         # number of variables: 3 for two outcomes; 1 for more outcomes (the single-fraction normal form of sums over
         # outcomes grows with prod_x p_x: the chain-rule structure is exercised at n=3, the outcome count at n=1)
         inp = sym_inputs(W, mk, S, m, 2 if m == 2 else 1, "vector" if mode == "custom" else None)
         var = inp["var"]
-        # away from the documented clipping thresholds: q >= 1e-6, model probabilities in [1e-6, 2]
+        zeros = self._zeros(cfg)
+        for (j, k) in zeros:
+            inp["q"][j][k] = 0.0
+        # away from the documented clipping thresholds: q >= 1e-6 (or exactly 0), model probabilities in [1e-6, 2]
         for j in range(S):
             p = inp["A"][j * m:(j + 1) * m] @ var + inp["b"][j * m:(j + 1) * m]
             for k in range(m):
-                mk.require(inp["q"][j][k] >= 1e-6)
-                mk.require(inp["q"][j][k] <= 2)
+                if (j, k) not in zeros:
+                    mk.require(inp["q"][j][k] >= 1e-6)
+                    mk.require(inp["q"][j][k] <= 2)
                 mk.require(p[k] >= 1e-6)
                 mk.require(p[k] <= 2)
         return inp
 
     def sample(self, cfg, names, rng):
-        mode, S, m = cfg
+        mode, S, m = cfg[:3]
         vals = {n: rng.uniform(-0.1, 0.1) for n in names}
         for n in names:
             if n.startswith("q"):
@@ -230,7 +261,7 @@ class RelativeEntropy(E2Contract):
         return vals
 
     def _mk(self, W, cfg, inp, fast):
-        mode, S, m = cfg
+        mode, S, m = cfg[:3]
         if fast:
             mod = W.mod(LF + "standard_qtomography_based_weighted_relative_entropy")
             loss = mod.StandardQTomographyBasedWeightedRelativeEntropy()
@@ -251,7 +282,7 @@ class RelativeEntropy(E2Contract):
         return dict(value=g.value(var), gradient=g.gradient(var), hessian=g.hessian(var), fvalue=f.value(var), fgradient=f.gradient(var))
 
     def post(self, W, cfg, inp, out):
-        mode, S, m = cfg
+        mode, S, m = cfg[:3]
         np = W.np
         var = inp["var"]
         tot = 0
@@ -259,6 +290,8 @@ class RelativeEntropy(E2Contract):
             p = inp["A"][j * m:(j + 1) * m] @ var + inp["b"][j * m:(j + 1) * m]
             wj = inp["ws"][j] if mode == "custom" else 1
             for k in range(m):
+                if (j, k) in self._zeros(cfg):
+                    continue            # 0 log 0 = 0
                 qk = inp["q"][j][k]
                 tot = tot + wj * qk * np.log(qk / p[k])
         cl = [eq("value==defining-formula", out["value"], tot, "value == sum_j w_j sum_x q_jx log(q_jx / p_jx) with the weights the option specifies"),
@@ -270,7 +303,134 @@ class RelativeEntropy(E2Contract):
             cl.append(eq("gradient==d(value)", out["gradient"], g, "gradient_i == d value / d var_i (d log u = du / u)"))
             H = [grad_of(W, out["gradient"][i], var, names) for i in range(inp["n"])]
             cl.append(eq("hessian==d(gradient)", out["hessian"], H, "hessian_ij == d gradient_i / d var_j"))
+        elif not W.symbolic:
+            cl += fd_clauses(W, self._mk(W, cfg, inp, False), var, out)
         return cl
+
+
+class NonAffineModel(E2Contract):
+    """the generic loss classes with a model that is NOT affine in the variables (user-supplied probability / gradient / Hessian functions of a
+    quadratic model p_j(v) = A_j v + b_j + 1/2 sum_ab v_a v_b C_j[:, a, b]): the curvature term of the Hessian is exercised, which every tomography
+    model (zero second derivative) leaves at zero"""
+    name = "generic losses on a non-affine model"
+    prop = "C12"
+    targets = (LF + "weighted_probability_based_squared_error:WeightedProbabilityBasedSquaredError.value",
+               LF + "weighted_probability_based_squared_error:WeightedProbabilityBasedSquaredError.gradient",
+               LF + "weighted_probability_based_squared_error:WeightedProbabilityBasedSquaredError.hessian",
+               LF + "weighted_relative_entropy:WeightedRelativeEntropy.value", LF + "weighted_relative_entropy:WeightedRelativeEntropy.gradient",
+               LF + "weighted_relative_entropy:WeightedRelativeEntropy.hessian",
+               "quara.math.matrix:multiply_veca_vecb", "quara.math.matrix:multiply_veca_vecb_matc", "quara.math.entropy:hessian_relative_entropy_2nd")
+    n_conformance = 2
+    max_paths = 32
+
+    def configs(self, tier):
+        out = [("squared", "matrix", 2, 2), ("squared", None, 2, 3), ("squared", "matrix", 2, 3), ("entropy", "vector", 2, 2), ("entropy", None, 1, 2)]
+        if tier == "thorough":
+            out += [("squared", "matrix", 3, 4), ("entropy", "vector", 2, 3), ("entropy", None, 1, 3)]
+        return out
+
+    def inputs(self, W, cfg, mk):
+        kind, wk, S, m = cfg
+        # the single-fraction normal form of the entropy's derivatives grows with the product of all model probabilities: one variable there
+        n = 2 if (kind == "squared" or S == 1) else 1
+        inp = sym_inputs(W, mk, S, m, n, wk)
+        C = []
+        for j in range(S):
+            c = W.np.zeros((m, n, n))
+            for k in range(m):
+                for a in range(n):
+                    for b in range(a, n):
+                        c[k, a, b] = mk.real(f"c{j}_{k}_{a}{b}")
+                        c[k, b, a] = c[k, a, b]
+            C.append(c)
+        inp["C"] = C
+        if kind == "entropy":
+            var = inp["var"]
+            for j in range(S):
+                p = self._p(W, inp, j, var)
+                for k in range(m):
+                    mk.require(inp["q"][j][k] >= 1e-6)
+                    mk.require(inp["q"][j][k] <= 2)
+                    mk.require(p[k] >= 1e-6)
+                    mk.require(p[k] <= 2)
+        return inp
+
+    def sample(self, cfg, names, rng):
+        kind, wk, S, m = cfg
+        vals = {n: rng.uniform(-0.1, 0.1) for n in names}
+        for n in names:
+            if n.startswith("q"):
+                vals[n] = rng.uniform(0.1, 0.9)
+            if n.startswith("b_"):
+                vals[n] = rng.uniform(0.4, 0.9)
+            if n.startswith("w"):
+                vals[n] = rng.uniform(0.5, 2.0)
+            if n.startswith("n"):
+                vals[n] = 100.0
+        return vals
+
+    @staticmethod
+    def _p(W, inp, j, var):
+        m, n = inp["m"], inp["n"]
+        p = inp["A"][j * m:(j + 1) * m] @ var + inp["b"][j * m:(j + 1) * m]
+        quad = [sum(inp["C"][j][k, a, b] * var[a] * var[b] for a in range(n) for b in range(n)) / 2 for k in range(m)]
+        return p + W.np.array(quad)
+
+    def _loss(self, W, cfg, inp):
+        kind, wk, S, m = cfg
+        np = W.np
+        n = inp["n"]
+
+        def fp(j):
+            return lambda var: self._p(W, inp, j, var)
+
+        def fg(j):
+            return lambda alpha, var: inp["A"][j * m:(j + 1) * m, alpha] + np.array([sum(inp["C"][j][k, alpha, b] * var[b] for b in range(n)) for k in range(m)])
+
+        def fh(j):
+            return lambda alpha, beta, var: np.array([inp["C"][j][k, alpha, beta] for k in range(m)])
+        fps, fgs, fhs = [fp(j) for j in range(S)], [fg(j) for j in range(S)], [fh(j) for j in range(S)]
+        if kind == "squared":
+            mod = W.mod(LF + "weighted_probability_based_squared_error")
+            loss = mod.WeightedProbabilityBasedSquaredError(n, fps, fgs, fhs, inp["q"], inp["ws"])
+        else:
+            mod = W.mod(LF + "weighted_relative_entropy")
+            loss = mod.WeightedRelativeEntropy(n, fps, fgs, fhs, inp["q"], inp["ws"])
+        return loss
+
+    def run(self, W, cfg, inp):
+        loss = self._loss(W, cfg, inp)
+        var = inp["var"]
+        return dict(value=loss.value(var), gradient=loss.gradient(var), hessian=loss.hessian(var))
+
+    def post(self, W, cfg, inp, out):
+        kind, wk, S, m = cfg
+        np = W.np
+        var = inp["var"]
+        tot = 0
+        for j in range(S):
+            p = self._p(W, inp, j, var)
+            q = inp["q"][j]
+            if kind == "squared":
+                r = p - q
+                tot = tot + (np.dot(r, inp["ws"][j] @ r) if wk else np.dot(r, r))
+            else:
+                wj = inp["ws"][j] if wk else 1
+                for k in range(m):
+                    tot = tot + wj * q[k] * np.log(q[k] / p[k])
+        cl = [eq("value==defining-formula", out["value"], tot, "value == the loss's defining formula on the model's predicted distributions, the data and the weights")]
+        names = [f"var_{k}" for k in range(inp["n"])]
+        g = grad_of(W, out["value"], var, names)
+        if g is not None:
+            cl.append(eq("gradient==d(value)", out["gradient"], g, "gradient_i == d value / d var_i"))
+            H = [grad_of(W, out["gradient"][i], var, names) for i in range(inp["n"])]
+            cl.append(eq("hessian==d(gradient)", out["hessian"], H, "hessian_ij == d gradient_i / d var_j (curvature term of the model included)"))
+        elif not W.symbolic:
+            cl += fd_clauses(W, self._loss(W, cfg, inp), var, out)
+        return cl
+
+    def canary(self, W, cfg, inp, out):
+        return [eq("canary", out["hessian"], 2 * out["hessian"] + 1, "(false)")]
 
 
 class EntropyHelpers(E2Contract):
@@ -282,13 +442,17 @@ class EntropyHelpers(E2Contract):
     max_paths = 16
 
     def configs(self, tier):
-        return [2, 3] + ([5] if tier == "thorough" else [])
+        # negative count: the first empirical entry is exactly zero (0 log 0 = 0, no contribution to the gradient)
+        return [2, 3, -2, -3] + ([5, -4] if tier == "thorough" else [])
 
     def inputs(self, W, cfg, mk):
-        q, p = mk.array("q", cfg), mk.array("p", cfg)
-        g = mk.array("g", (cfg, 2))
-        for k in range(cfg):
-            for v in (q[k], p[k]):
+        n = abs(cfg)
+        q, p = mk.array("q", n), mk.array("p", n)
+        g = mk.array("g", (n, 2))
+        if cfg < 0:
+            q[0] = 0.0
+        for k in range(n):
+            for v in ((p[k],) if (cfg < 0 and k == 0) else (q[k], p[k])):
                 mk.require(v >= 1e-6)
                 mk.require(v <= 2)
         return dict(q=q, p=p, g=g)
@@ -305,11 +469,12 @@ class EntropyHelpers(E2Contract):
     def post(self, W, cfg, inp, out):
         np = W.np
         q, p, g = inp["q"], inp["p"], inp["g"]
-        terms = [q[k] * np.log(q[k] / p[k]) for k in range(cfg)]
+        n = abs(cfg)
+        terms = [(0 * p[k] if (cfg < 0 and k == 0) else q[k] * np.log(q[k] / p[k])) for k in range(n)]
         tot = 0
         for t in terms:
             tot = tot + t
-        gsum = [sum((-q[k] * g[k, a] / p[k] for k in range(cfg)), 0 * q[0]) for a in range(2)]
+        gsum = [sum((-q[k] * g[k, a] / p[k] for k in range(n) if not (cfg < 0 and k == 0)), 0 * p[0]) for a in range(2)]
         return [eq("scalar", out["s"], tot, "relative_entropy == sum q log(q/p)"),
                 eq("vector", out["v"], terms, "relative_entropy_vector entries == q log(q/p)"),
                 eq("gradient-scalar", out["gs"], gsum, "gradient_relative_entropy_2nd == sum_x -q_x grad p_x / p_x"),
